@@ -40,7 +40,10 @@ class C10(SCheck):
                 size = bs * r.randrange(2, 6) + r.choice([0, 1])
             ops.append(gen.f_op("src/f%d" % i, size, pat=r.randrange(1, 1 << 30), mode=mode, mtime=mt, xattrs=xa or None, uid=uid, gid=gid))
             if overwrite and r.random() < 0.7:
-                ops.append(gen.f_op("dst/src/f%d" % i, r.randrange(0, 2000), pat=3, mode=r.choice([0o600, 0o666, 0o755, 0o4711])))
+                # previous destination: other mode, and an owner that shares one id with the source's
+                puid = uid if r.random() < 0.6 else r.choice([0, 1000, 4242])
+                pgid = r.choice([gid, 7, 0, 4242])
+                ops.append(gen.f_op("dst/src/f%d" % i, r.randrange(0, 2000), pat=3, mode=r.choice([0o600, 0o666, 0o755, 0o4711]), uid=puid, gid=pgid))
         kernel = {}
         if bs >= 4096 and r.random() < 0.3:
             ln, runs = gen.sparse_layout(r, style=r.choice(["inter", "many"]), max_runs=6)
